@@ -280,3 +280,20 @@ func Exists(name string) bool {
 
 // ListDir is ReadDir for the harness (no system-call boundary).
 func ListDir(dir string) []MemDirEnt { return children(dir) }
+
+// RemoveAll is os.RemoveAll: one unlink / rmdir system call per file and directory below path (children first),
+// so a kill can leave a partly removed tree.
+func RemoveAll(path string) error {
+	if _, ok := files[path]; ok {
+		return Remove(path)
+	}
+	if !dirs[path] {
+		return nil
+	}
+	for _, e := range children(path) {
+		if err := RemoveAll(path + "/" + e.N); err != nil {
+			return err
+		}
+	}
+	return Remove(path)
+}
